@@ -58,6 +58,8 @@ const (
 	kpTwoClientRecv
 	kpSpoofAhead
 	kpAckTruncated
+	kpAckBareErrno
+	kpRecvIntr
 	kpTwoClientSet
 	kpCloseErrno
 	kpRecvHard
@@ -82,7 +84,7 @@ var kProbeNames = []string{"unsolicited_record_skipped_inside_call", "eagain_x9_
 	"waitacks_with_nothing_pending", "waitacks_called_again_after_error", "repeated_close_was_noop", "second_close_blocked_in_once",
 	"close_cleared_pid", "getrules_buffer_overwritten_later", "sends_overlapped_in_time", "receive_short_datagram", "receive_foreign_port_id",
 	"receive_non_netlink_address", "short_after_long_datagram", "send_payload_8970", "send_with_caller_pid", "porcupine_histories_checked",
-	"sendto_failed", "kernel_immutable", "receive_foreign_port_id_with_group_mask", "receive_foreign_port_id_2^31_or_more", "getstatus_result_checked_again_at_end", "receive_on_two_independent_clients_in_tasks", "forged_reply_queued_ahead_of_the_kernels", "ack_datagram_truncated", "setters_on_two_clients_in_two_tasks", "socket_close_reported_an_error", "receive_failed_with_enobufs_inside_call", "sequence_counter_started_next_to_wrap",
+	"sendto_failed", "kernel_immutable", "receive_foreign_port_id_with_group_mask", "receive_foreign_port_id_2^31_or_more", "getstatus_result_checked_again_at_end", "receive_on_two_independent_clients_in_tasks", "forged_reply_queued_ahead_of_the_kernels", "ack_datagram_truncated", "ack_of_20_to_35_bytes_errno_without_echo", "receive_interrupted_by_a_signal_then_repeated", "setters_on_two_clients_in_two_tasks", "socket_close_reported_an_error", "receive_failed_with_enobufs_inside_call", "sequence_counter_started_next_to_wrap",
 	"verdict_left_unread_by_a_failed_call", "status_reply_ahead_of_its_ack", "send_payload_with_spare_capacity", "send_same_payload_slice_again",
 	"receive_datagram_whose_length_field_differs_from_its_size", "more_than_16_nowait_requests_outstanding", "ack_delayed_past_a_whole_waitforpendingacks_call", "error_ack_echoing_a_request_of_8900_bytes_or_more", "refusal_with_a_netlink_type_other_than_error", "client_preloaded_with_300_to_70000_commands"}
 
@@ -406,7 +408,7 @@ func ExecKPlan(p *KPlan, trace bool) *core.Result {
 	gb := &gateBox{g: &directGate{port}}
 	c := &kctx{p: p, res: res, k: k, port: port, start: start, trace: trace, prop: propOfScenario(p.Scenario), h: 14695981039346656037}
 	if p.Transport == 1 && HooksEnabled {
-		c.realNL = newRealNetlink(&simSocket{gb: gb}, p.PortID, make([]byte, 16+8970))
+		c.realNL = newRealNetlink(&simSocket{gb: gb}, p.PortID, make([]byte, 16+8970), respWriter(p))
 		c.nl = c.realNL
 	} else {
 		c.stub = newStubNetlink(gb, p.PortID)
@@ -699,6 +701,9 @@ func (c *kctx) execOp(i int, op KOp) {
 			// the verdict was truncated away: the call may fail, it must not claim success for a refused request
 			relaxed = true
 			c.res.Probes[kpAckTruncated]++
+		} else if f.AckShort != 0 && f.AckShort-1 < 36 {
+			// an ACK of 20..35 bytes: the errno is there, judged like any other
+			c.res.Probes[kpAckBareErrno]++
 		}
 		if r.AckMistyped {
 			// the refusal did not come as an NLMSG_ERROR: the call cannot identify
@@ -989,8 +994,12 @@ func (c *kctx) judgeWire(i int, op KOp, reqs []*kern.Request, st *libaudit.Audit
 	if r.DataFirst {
 		c.res.Probes[kpDataBeforeAck]++
 	}
-	if (err != nil || st == nil) && (r.DataFirst || c.callHard) {
-		return // the reply overtook its ACK, or a receive failed hard: the call may give up
+	forged := faultOf(c.p, r.Idx).Spoof != 0 && c.realNL != nil
+	if forged {
+		c.res.Probes[kpSpoofAhead]++
+	}
+	if (err != nil || st == nil) && (r.DataFirst || c.callHard || forged) {
+		return // the reply overtook its ACK, a receive failed hard, or a forged datagram sat in front of the ACK or the reply: the call may give up
 	}
 	if n < 32 {
 		c.res.Probes[kpShortStatusReply]++
@@ -1328,7 +1337,7 @@ func (c *kctx) concurrentPhase(gb *gateBox) {
 	gbB := &gateBox{g: &schedGate{sc: sc, port: 1}}
 	var clientB *libaudit.AuditClient
 	if c.realNL != nil {
-		clientB = &libaudit.AuditClient{Netlink: newRealNetlink(&simSocket{gb: gbB}, c.p.PortID+1, make([]byte, 16+8970))}
+		clientB = &libaudit.AuditClient{Netlink: newRealNetlink(&simSocket{gb: gbB}, c.p.PortID+1, make([]byte, 16+8970), respWriter(c.p))}
 	} else {
 		clientB = &libaudit.AuditClient{Netlink: newStubNetlink(gbB, c.p.PortID+1)}
 	}
@@ -1856,13 +1865,27 @@ func (c *kctx) execRecvRaw(i int, op KOp) {
 	}
 	c.k.Inject(data, fromPid, nonNL).Groups = groups
 	via := op.C & 1
+	// op.E: bit 0 a blocking read, bits 1-2 so many reads are interrupted by a
+	// signal (EINTR) before the datagram is handed over; the caller reads again
+	blocking := op.E&1 == 1
+	intr := int(op.E>>1) & 3
+	if intr > 2 {
+		intr = 2
+	}
+	if via != 0 || c.realNL == nil {
+		blocking = false // AuditClient.Receive has its own parameter; the stub has no read flags
+	}
+	if intr > 0 {
+		c.port.intrNext = intr
+		c.res.Probes[kpRecvIntr]++
+	}
 	var gotType int = -1
 	var gotData []byte
 	var parserBuf []byte
 	parserCalled := false
 	var err error
 	panicked := ""
-	func() {
+	attempt := func() {
 		defer func() {
 			if r := recover(); r != nil {
 				panicked = fmt.Sprint(r)
@@ -1870,7 +1893,7 @@ func (c *kctx) execRecvRaw(i int, op KOp) {
 		}()
 		if via == 0 && c.realNL != nil {
 			var msgs []syscall.NetlinkMessage
-			msgs, err = c.realNL.Receive(true, func(b []byte) ([]syscall.NetlinkMessage, error) {
+			msgs, err = c.realNL.Receive(!blocking, func(b []byte) ([]syscall.NetlinkMessage, error) {
 				parserCalled = true
 				parserBuf = append([]byte(nil), b...)
 				if len(b) < 16 {
@@ -1895,8 +1918,16 @@ func (c *kctx) execRecvRaw(i int, op KOp) {
 				gotData = append([]byte(nil), m.Data...)
 			}
 		}
-	}()
-	c.mix(uint64(n)<<16 ^ uint64(op.B)<<8 ^ uint64(via))
+	}
+	for a := 0; a < 4; a++ {
+		f0 := c.port.intrFired
+		attempt()
+		if panicked != "" || err == nil || gotType != -1 || c.port.intrFired == f0 {
+			break // anything but "this read was interrupted": the caller does not read again
+		}
+	}
+	c.port.intrNext = 0
+	c.mix(uint64(n)<<16 ^ uint64(op.B)<<8 ^ uint64(via) ^ uint64(op.E)<<24)
 	if err != nil {
 		c.mix(0xe44)
 	}
